@@ -637,7 +637,7 @@ def emit_obs_ei(ei):
 
 HEADER = """From Coq Require Import ZArith NArith String List Bool. Import ListNotations.
 From TP Require Import Base.PyVal Base.PyEq Base.PyOps Errors.Template Errors.Render Errors.Parse Errors.TemplateOk Errors.Collect
-  Errors.Guard Errors.GuardSchema Gen.GuardProgs Check.C18chk.
+  Errors.Guard Errors.GuardSchema Errors.Switch Gen.GuardProgs Gen.SwitchSites Check.C18chk.
 Local Open Scope string_scope.
 """
 
@@ -936,6 +936,18 @@ def evaluate_case(case, rep, streams, stats_only=False):
             tag = "%s/%s" % (mode, "ff" if ff else "all")
             rep.stat("config", "%s:%s" % (tag, "accepted" if r is None else r[1]["exn"]))
             obs = r[1] if r else None
+            # the switch is process-wide: set in one thread, validated (and the exception converted) in
+            # another, the operation must end exactly as it does in one thread
+            from harness import c18switch
+            placement = c18switch.placement_of(case, mode, ff)
+            r2 = c18switch.placed(case, mode, ff, placement)
+            rep.stat("config", "placed:%s:%s" % (placement, "same" if (r2[1] if r2 else None) == obs else "DIFFERENT"))
+            if (r2[1] if r2 else None) != obs:
+                fails.append(("C18/%s/switch-not-process-wide/%s" % (tag, placement),
+                              "with the switch set to fail_fast=%s in one thread and the operation run in another (%s) it ends in %s; "
+                              "in a single thread it ends in %s" % (
+                                  ff, placement, "acceptance" if r2 is None else "%s %r" % (r2[1]["exn"], r2[1]["raw"]),
+                                  "acceptance" if r is None else "%s %r" % (obs["exn"], obs["raw"])), mode, ff))
             # construct / deserialize correspondence
             if mode == "ctor":
                 args = E.lst(["(%s, %s)" % (E.pstr(n), E.opt(orc[n]["ctor"] and (orc[n]["ctor"]["inner"], orc[n]["ctor"]["te_ve"]),
@@ -1178,6 +1190,9 @@ def replay(obj):
     if obj.get("shared_history"):
         from harness import c18shared
         return c18shared.replay(obj, _rereify)
+    if obj.get("switch_history"):
+        from harness import c18switch
+        return c18switch.replay_history(obj)
     if "cls_ast" not in obj:
         print(obj.get("detail", "no concrete input in this replay file"))
         return 2
@@ -1199,6 +1214,11 @@ def replay(obj):
             print("%-5s fail_fast=%-5s ->" % (mode, ff), "accepted" if r is None else "%s %r" % (r[1]["exn"], r[1]["raw"]))
             if r is not None:
                 print("       helper ->", r[1]["helper"][1])
+            from harness import c18switch
+            pl = c18switch.placement_of(case, mode, ff)
+            r2 = c18switch.placed(case, mode, ff, pl)
+            if (r2[1] if r2 else None) != (r[1] if r else None):
+                print("       %s ->" % pl, "accepted" if r2 is None else "%s %r" % (r2[1]["exn"], r2[1]["raw"]))
     want = obj.get("finding_key")
     hit = [f for f in fails if f[0] == want] or fails
     for f in hit:
@@ -1253,7 +1273,7 @@ def run(rep, tier):
     ]
     ws_ok, pats_ok = regex_oracle_checks(rep)
     assert Structure.failing_fast()
-    streams = {"render": [], "construct": [], "deser": [], "parse": [], "guard": [], "ctoronly": []}
+    streams = {"render": [], "construct": [], "deser": [], "parse": [], "guard": [], "ctoronly": [], "switch": []}
     all_fails = []
     cases = []
     for i in range(ncases):
@@ -1327,6 +1347,13 @@ def run(rep, tier):
             if v["key"].startswith("C18/shared"):
                 print("[c18] key %4d %s" % (v["count"], v["key"]))
 
+    # ---- the switch itself: histories of set_fail_fast / failing_fast calls made by several threads
+    from harness import c18switch
+    try:
+        streams["switch"] = c18switch.build(rep, rnd, tier)
+    finally:
+        Structure.set_fail_fast(True)
+
     # ---- the validation chains: real field objects against the generated guard programs
     from harness import c18guards
     try:
@@ -1342,6 +1369,7 @@ def run(rep, tier):
                  ("construct", "ccase", ["construct_mismatch", "construct_hyps"]),
                  ("deser", "dcase", ["deser_mismatch"]),
                  ("ctoronly", "N", ["ctor_only_unlisted"]),
+                 ("switch", "scase", ["switch_mismatch", "switch_not_process_wide"]),
                  ("guard", "gcase", ["guard_mismatch", "guard_schema_bad", "guard_bare_under_hyps", "guard_hyps",
                                      "guard_unmodelled"])]
         results, extra = eval_streams(rep, specs, streams, extra=["obsolete_restrictions"])
@@ -1352,6 +1380,14 @@ def run(rep, tier):
                            "every restricted kind of Errors/GuardSchema.v is still rejected by the analysis on all values"
                            if not obsolete else "the chains of %s now pass the analysis on ALL values: their restriction "
                            "(a known defect) is obsolete and the kind can move to kinds_all_values" % ", ".join(obsolete))
+        sres = results.get("switch")
+        if sres:
+            for i in sres["switch_not_process_wide"]:
+                info = streams["switch"][i][1]
+                rep.finding("C18/switch/not-process-wide",
+                            "threads calling set_fail_fast / failing_fast: %s; failing_fast() answered %s, one process-wide switch "
+                            "answers %s" % (info["events"], info["observed"], c18switch.documented(info["events"])),
+                            {"switch_history": True, "events": info["events"]})
         # a guard case on which model and code differ, or a nameless exception where the theorem's hypotheses
         # hold, is re-run as an ordinary one-field argument set: the clauses give the concrete replay
         gres = results.get("guard")
@@ -1414,12 +1450,15 @@ def run(rep, tier):
                 if not explained:
                     model = {"render": "Render.v + Gen/Templates.v", "parse": "Parse.v", "construct": "Collect.v",
                              "deser": "Collect.v", "ctoronly": "Collect.v: ctor_only_sites",
+                             "switch": "Switch.v + Gen/SwitchSites.v",
                              "guard": "Guard.v + Gen/GuardProgs.v + GuardSchema.v"}[name]
                     what = ("model (Errors/%s) and typedpy differ on %d of %d generated cases; no clause of C18 failed on "
                             "any explored input. First: %s" % (model, len(mism), len(items),
                                                                {k: v for k, v in info.items() if k not in ("case", "cast", "r")}))
                     if name == "guard":
                         rep.broken("correspondence:guard", what, {"guard_case": items[mism[0]][0][:3000]})
+                    elif name == "switch":
+                        rep.broken("correspondence:switch", what, {"switch_history": True, "events": info["events"]})
                     else:
                         c = info["case"]
                         rep.broken("correspondence:" + name, what,
